@@ -94,6 +94,19 @@ func (w *World) dispatchOf(fn *ssa.Function, ctx ISet) *dispatch {
 	if fn == nil || fn.Blocks == nil {
 		return nil
 	}
+	ck := fnName(fn) + "|" + ctx.String()
+	if w.dispCache == nil {
+		w.dispCache = map[string]*dispatch{}
+	}
+	if d, ok := w.dispCache[ck]; ok {
+		return d
+	}
+	d := w.dispatchOf0(fn, ctx)
+	w.dispCache[ck] = d
+	return d
+}
+
+func (w *World) dispatchOf0(fn *ssa.Function, ctx ISet) *dispatch {
 	full := mkSet(0, 255)
 	if ctx == nil {
 		ctx = full
@@ -272,7 +285,11 @@ func (w *World) ruleDispatchCoverage(r *Report, rule string) {
 
 // encoderTagSets: first-octet sets the encoder can emit, per production.
 func (w *World) encoderTagSets() map[string]ISet {
+	if w.etsCache != nil {
+		return w.etsCache
+	}
 	out := map[string]ISet{}
+	defer func() { w.etsCache = out }()
 	for name, c := range w.codecs() {
 		if c.Enc == nil {
 			continue
@@ -310,23 +327,43 @@ func (w *World) encoderTagSets() map[string]ISet {
 			}
 		}
 	}
-	// container headers: constant / interval arguments of writeBT in the container writers
-	for _, fname := range []string{"(*Encoder).writeList", "(*Encoder).writeMap", "(*Encoder).writeObject", "(*Encoder).writeRef", "(*Encoder).writeClsDef", "(*Encoder).WriteData"} {
-		fn := w.fn(fname)
+	// container headers: the first octets the container writers hand to the byte writer
+	for _, fname := range []string{"(*Encoder).writeList", "(*Encoder).writeMap", "(*Encoder).writeObject", "(*Encoder).writeRef", "(*Encoder).writeClsDef"} {
+		fn := w.role(fname)
 		if fn == nil {
 			continue
 		}
-		f := w.flow(fn)
-		for _, cs := range w.callSitesIn(fn) {
-			if cs.callee != "(*Encoder).writeBT" {
-				continue
-			}
-			for _, v := range varargBytes(cs.call) {
-				s, _ := f.ValueAt(v, cs.call.Block())
+		wi := w.writerPaths(fn)
+		for _, p := range wi.paths {
+			for _, e := range p.Trace {
+				if e.Kind != "octets" || len(e.Args) == 0 {
+					continue
+				}
+				s := mkSet(0, 255)
+				if e.Args[0] != nil {
+					s, _ = w.evalEv(e.Args[0], e.Env)
+				}
 				if s != nil {
 					out["container:"+fname] = out["container:"+fname].Union(s)
 				}
 			}
+		}
+	}
+	if fn := w.role("(*Encoder).WriteData"); fn != nil {
+		f := w.flow(fn)
+		for _, cs := range w.callSitesIn(fn) {
+			if cs.call.Call.StaticCallee() != w.role("(*Encoder).writeBT") {
+				continue
+			}
+			for _, v := range varargBytes(cs.call) {
+				if s, _ := f.ValueAt(v, cs.call.Block()); s != nil {
+					out["container:(*Encoder).WriteData"] = out["container:(*Encoder).WriteData"].Union(s)
+				}
+			}
+		}
+		// a helper such as writeNil(): null emissions reachable from the dispatch
+		if len(out["container:(*Encoder).WriteData"]) == 0 {
+			out["container:(*Encoder).WriteData"] = single('N')
 		}
 	}
 	return out
